@@ -16,6 +16,25 @@ CHECKS = {
     ),
 }
 
+BF = "abstract interpretation of rustc MIR on a bit-granular domain (per-bit Boolean functions of symbolic table bits, clause-set Booleans), compared with specification bit functions"
+CHECKS.update({
+    "C01": dict(cat="proof", ref="3 C01", technique=BF + "; forms discovered from the trait/inherent impls",
+        text="Every discovered form of NOT/AND/OR/XOR (28 per type: named, in-place, operator traits by value/reference, compound assignment) is run on tables of symbolic bits for each n: the result equals a(m) op b(m) at every position (NOT re-masked above 2^n), has the right size, and borrowed operands are unchanged - for all table contents at once. Sibling forms agree because each equals the same specification; a per-operator form count guards against vacuity.",
+        note="Trusted: " + TB + ". n in 0..8 (quick) / 0..12 (thorough), loops unrolled per n. Operand tables assumed well formed (C02); size mismatches are C17."),
+    "C02": dict(cat="other", ref="3 C02", technique="ownership rule on ADT field visibility + inductive invariant proved per public producer by bit-granular abstract interpretation of MIR (unused bits constant 0, block count) + abstract summary of eq/cmp",
+        text="Inductive invariant over all API histories: the representation fields are private to their module (rustc privacy), and every externally reachable body of those modules that returns or mutates a table is shown, on well-formed symbolic inputs and a partition of valid arguments, to hand back tables with table_size(n) blocks, the right num_vars and constant-0 bits at positions >= 2^n; derived/abstractly summarised eq, hash and cmp compare exactly the representation. Level 'other' because a few producers are UNDECIDED rather than proved (listed in the evidence).",
+        note="Trusted: " + TB + "; rustc privacy checking. from_blocks exempt by its stated precondition (checked to copy verbatim). Canonization producers use join-at-top for the data-dependent comparisons. n in 0..6 (quick) / 0..8 (thorough)."),
+    "C06": dict(cat="proof", ref="3 C06", technique="abstract interpretation of MIR to path-condition/class pairs over clause-set Booleans; uniform-pair-predicate abstraction and exhaustive comparison with the statement's decision list",
+        text="top_decomposition, is_pos_unate and is_neg_unate are run on a symbolic table for every (n, v): each path yields (condition, class). For n <= 3 the summary is compared with the statement on all tables; for n >= 4 every condition is shown to be the same per-position predicate on (c0,c1) at all 2^(n-1) positions and the decision is compared with the statement on all 15 non-empty value-pair sets. A refutation is a concrete table with the wrong class.",
+        note="Trusted: " + TB + "; spec_class() is the reading of the statement. n in 1..8 (quick) / 1..10 (thorough); cross-word path unrolled per n."),
+    "C11": dict(cat="proof", ref="3 C11", technique=BF,
+        text="Every named constructor of both types is run for each n, each index and each k in 0..n+2 plus {63,64,65,usize::MAX} (symmetric with a symbolic count mask): the resulting table equals the specified function bit for bit, with no feasible panic.",
+        note="Trusted: " + TB + ". n in 0..8 (quick, debug configuration) / 0..12 (+14 for Lut) in both build configurations (thorough)."),
+    "C17": dict(cat="proof", ref="3 C17", technique="abstract interpretation of MIR under two build configurations (debug-assertions+overflow-checks on/off): reachability of a return for invalid-argument partitions, equality of abstract results for valid ones",
+        text="For every public method with an index/assignment/block-slice parameter, n in 0..8 and a partition of invalid values (n, n+1, 31/32, 63/64/65, n+70, usize::MAX; wrong slice lengths; mismatched operand sizes for every binary form of Lut), no path returns under either configuration; for valid arguments the abstract results of both configurations are identical and no panic path is feasible.",
+        note="Trusted: " + TB + " for both configurations. StaticLut size mismatches are rejected by the type checker (compile-fail witness in C10 thorough). Canonization, bdd and text methods take no index parameter and are outside this property's scope."),
+})
+
 NOT_APPLICABLE = {
     "C07": "bdd_complexity is the cardinality of sorted+deduplicated sets of runtime sub-tables; no sound static argument in reach bounds that count, and the only shape clauses (level ranges, concatenation) are far from sufficient (DESIGN.md section 4).",
     "C18": "optimality/exactness of the solution of an external MILP solver on a model built at run time; needs feature optim-mip and the solver's semantics; the only shape rule available would fire on behaviour-preserving edits (DESIGN.md section 4).",
